@@ -851,8 +851,10 @@ def unaryOperation (env : Env) (fuel : Nat) (q : List QueryPart) (op : CmpOp) (o
     else do
       let rs ← lhs.mapM fun each => do
         let b ← liftO (unaryCheck op opNot inverse each)
+        -- the record carries literals as resolved values (eval.rs `record_unary_clause`)
+        let shown : QR := match each with | .literal v => .resolved v | other => other
         if b then emit (.clauseValueCheck .success)
-        else emit (.clauseValueCheck (.unary each op opNot msg))
+        else emit (.clauseValueCheck (.unary shown op opNot msg))
         pure (each, b)
       pure (.queryValueResult rs)
 
